@@ -729,6 +729,70 @@ def d13_merger_keeps_the_document_it_is_given(chk: Check) -> None:
                  "the parameter is not what is stored")
 
 
+_MUTATING = ("add", "append", "extend", "update", "insert", "setdefault",
+             "pop", "remove", "discard", "clear", "popitem")
+
+
+def d14_no_memory_between_documents(chk: Check) -> None:
+    """One configuration object serves every Merger of a run and prepare()
+    is called once per right-hand document.  Whatever prepare() and its
+    rule collector write on `self` therefore outlives the document it was
+    computed for: a verdict remembered about one document (a rule path that
+    matched nothing there) silently decides the next one.  Every attribute
+    they write must be re-bound by prepare() itself, unconditionally,
+    before the collector runs."""
+    prog = chk.prog
+    chk.rule("C18-D14", "every attribute of the configuration object that "
+             "prepare() or its rule collector writes is re-bound by "
+             "prepare() before the collector runs (no verdict about one "
+             "document is remembered for the next)", floor=4)
+    for cls in ("MergerConfig", "DifferConfig"):
+        prep = prog.func(cls + ".prepare")
+        coll = prog.func(cls + "._prepare_user_rules")
+        resets = {src(n.targets[0]) for n in prep.node.body
+                  if isinstance(n, ast.Assign)}
+        for fi in (prep, coll):
+            chk.analysed(fi)
+            written = {}
+            for n in walk_local(fi.node):
+                tgt = None
+                if isinstance(n, (ast.Assign, ast.AugAssign, ast.AnnAssign)):
+                    for t in (n.targets if isinstance(n, ast.Assign)
+                              else [n.target]):
+                        base = t
+                        while isinstance(base, ast.Subscript):
+                            base = base.value
+                        if isinstance(base, ast.Attribute) and \
+                                src(base.value) == "self":
+                            tgt = src(base)
+                            if fi is prep and base is t and \
+                                    n in prep.node.body:
+                                tgt = None   # the reset itself
+                elif isinstance(n, ast.Call) and \
+                        isinstance(n.func, ast.Attribute) and \
+                        n.func.attr in _MUTATING and \
+                        isinstance(n.func.value, ast.Attribute) and \
+                        src(n.func.value.value) == "self":
+                    tgt = src(n.func.value)
+                if tgt:
+                    written.setdefault(tgt, n)
+            bad = {a: n for a, n in written.items() if a not in resets}
+            text = "{}: attributes written {}".format(
+                fi.short, sorted(written) or "none")
+            if bad:
+                a = sorted(bad)[0]
+                chk.fail("C18-D14", fi, bad[a], text,
+                         "`{}` is written while a document is prepared and "
+                         "never re-bound by prepare(): what was noted about "
+                         "one document of the stream is still there when "
+                         "the next one is prepared (a rule skipped, a match "
+                         "kept), so a pairwise step is no longer the "
+                         "configured merge".format(a))
+            else:
+                chk.ok("C18-D14", fi, fi.node, text,
+                       "nothing outlives the document")
+
+
 def run(chk: Check) -> None:
     d1_routing(chk)
     d2_condense(chk)
@@ -751,5 +815,6 @@ def run(chk: Check) -> None:
     # document merge: its per-document tables must be rebuilt each time
     from rules.c05 import d2d_rules_per_document
     d2d_rules_per_document(chk, "C18-D5")
+    d14_no_memory_between_documents(chk)
     from rules.shared import config_parser_read_only_rule
     config_parser_read_only_rule(chk, "C18-D9", 20)
